@@ -63,6 +63,8 @@ class RowForm:
         info = self.info
         rows = info.rows if info is not None else None
         seeds = "seeds"
+        copy_ = self._copy
+        env_top = self.env.env_at.get(id(self.loop), {}) if self.loop is not None else {}
 
         class R(ast.NodeTransformer):
             def visit_Subscript(self, node):
@@ -82,6 +84,11 @@ class RowForm:
                     return ast.Name(id="ROW", ctx=node.ctx)
                 if node.id == info.seed:
                     return ast.parse("%s[IDX]" % seeds, mode="eval").body
+                if node.id in info.others and isinstance(node.ctx, ast.Load):
+                    arr = env_top.get(info.others[node.id])
+                    base = copy_.deepcopy(arr) if arr is not None else ast.Name(id=info.others[node.id],
+                                                                                ctx=ast.Load())
+                    return ast.Subscript(value=base, slice=ast.Name(id="IDX", ctx=ast.Load()), ctx=ast.Load())
                 return node
         return R().visit(e)
 
